@@ -123,6 +123,8 @@ func (s *MultiplexedSource) connectSources() {
 
 			if err != nil {
 				s.logger.Error("safe run", zap.Error(err))
+				// shut down while the source was being created: the termination callback did not see it
+				newSrc.Shutdown(err)
 				s.Shutdown(err)
 			}
 		}
